@@ -29,12 +29,18 @@ class Run(object):
         if b:
             self.box = (FL(b['lo']), FL(b['hi']))
             s.SetStrictRanges(list(self.box[0]), list(self.box[1]), tight=b.get('tight'), clip=b.get('clip'))
+        # 'kw_first': penalty and constraints are handed to the first Step as keywords (documented inputs of Step/Solve,
+        # kept by the solver from then on) instead of through SetPenalty / SetConstraints
+        self.kw_first = bool(cfg.get('kw_first'))
+        self.first_kw = {}
         self.con = lab.Constraint(cfg['constraint']) if cfg.get('constraint') else None
         if self.con is not None:
-            s.SetConstraints(self.con)
+            if self.kw_first: self.first_kw['constraints'] = self.con
+            else: s.SetConstraints(self.con)
         self.pen = lab.make_penalty(cfg.get('penalty'))
         if self.pen is not None:
-            s.SetPenalty(self.pen)
+            if self.kw_first: self.first_kw['penalty'] = self.pen
+            else: s.SetPenalty(self.pen)
         self.red = cfg.get('reducer')
         if self.red:
             fn, arr = lab.reducer_fn(self.red)
@@ -55,7 +61,8 @@ class Run(object):
         self.callbacks.append((lab.fvec(x), self.cost.ncalls()))
 
     def step(self):
-        self.msg = self.solver.Step(callback=self.cb)
+        kw = self.first_kw; self.first_kw = {}
+        self.msg = self.solver.Step(callback=self.cb, **kw)
         return self.msg
 
     # ---- the objective the solver minimises, computed by the harness ----------
@@ -163,4 +170,6 @@ def configs(draw, tier='quick', solvers=lab.SOLVERS, need_constraint=False, allo
     cfg['maxiter'] = draw(st.integers(1, 12 if tier == 'quick' else 25))
     cfg['maxfun'] = draw(st.sampled_from([None, None, None, 5, 20, 60]))
     cfg['term'] = draw(st.sampled_from(['never', 'never', 'cog', 'default']))
+    if (cfg.get('penalty') or cfg.get('constraint')) and draw(st.integers(0, 3)) == 0:
+        cfg['kw_first'] = True
     return cfg
